@@ -40,6 +40,14 @@ def pick_phase(rng) -> float:
         return float(v)
     if rng.random() < 0.08:
         return float(int(rng.integers(-9, 10)) * math.pi / 4)       # every multiple of pi/4 (labels like 3pi/4, -5pi/4)
+    if rng.random() < 0.06:
+        # whole turns and values a hair off them (float modulo 2*pi may land on 2*pi itself), large multiples of pi / 4
+        k = int(rng.choice([0, 1, -1, 2, 11, -13, 50, 1000]))
+        off = float(rng.choice([0.0, -1e-12, 1e-12, -1e-9, 1e-9, -1e-16, 0.3 - 0.1 - 0.2, -3e-7]))
+        v = k * 2 * math.pi + off
+        if rng.random() < 0.3:
+            v = int(rng.integers(-120, 121)) * math.pi / 4 + off
+        return float(v)      # (single-precision phases would carry single-precision error into U: not offered)
     return float(rng.uniform(-4 * math.pi, 4 * math.pi))
 
 
